@@ -28,11 +28,11 @@ UNSTABLE = {"visual", "permutate", "mutable", "smooth_shaded", "principal_inerti
             "edges_sorted_tree", "face_adjacency_edges_tree", "face_adjacency_tree", "vertex_adjacency_graph", "facets",
             "facets_area", "facets_normal", "facets_origin", "facets_boundary", "facets_on_hull", "convex_hull",
             "bounding_box_oriented", "bounding_cylinder", "bounding_primitive", "bounding_sphere", "ray", "nearest",
-            "as_open3d", "identifier", "principal_inertia_components", "faces_sparse", "edges_sparse", "units",
+            "as_open3d", "identifier", "faces_sparse", "edges_sparse", "units",
             "is_convex", "face_angles_sparse",
             # 1 / sin of a dihedral angle: unbounded for nearly coplanar neighbours, not comparable at a tolerance
             "face_adjacency_radius"}
-MATRIX_CLASSES = ["rigid", "uscale", "mirror", "aniso", "shear", "neariden", "trans", "mirror_scale"]
+MATRIX_CLASSES = ["rigid", "uscale", "mirror", "aniso", "shear", "neariden", "trans", "mirror_scale", "rhombic"]
 OPS = ["transform"] * 5 + ["invert", "faces_bool", "faces_int", "merge", "unref", "unmerge", "fix_normals", "inplace_v",
                             "reassign_f", "rezero", "scale", "translate", "density", "center_mass", "set_normals",
                             "process", "process_validate", "fill_holes", "inplace_f", "copy_edit", "inplace_then_translate",
@@ -319,6 +319,14 @@ def _matrix(cls, r):
         S = np.eye(4)
         S[0, 1] = .7
         return R @ S
+    if cls == "rhombic":
+        # equal-length, non-orthogonal columns (hexagonal lattice basis): not a similarity
+        H = np.eye(4)
+        H[:3, :3] = [[1.0, 0.5, 0.0], [0.0, np.sqrt(3) / 2, 0.0], [0.0, 0.0, 1.0]]
+        return R @ H
+    if cls == "mirror_small":
+        # a mirror combined with a unit conversion: negative determinant of tiny magnitude
+        return R @ np.diag([1e-3, -1e-3, 1e-3, 1.0])
     if cls == "neariden":
         I = np.eye(4)
         I[0, 3] = r.choice([1e-9, 5e-8, 5e-7, 5e-6])
